@@ -45,6 +45,7 @@ func (sr *srcRenderer) kvName(n string) string {
 var rangeColl = map[string][2]string{ // kind -> variable, type
 	"slice": {"s", "[]int"}, "array": {"arr", "[3]int"}, "string": {"str", "string"}, "int": {"n", "int"}, "chan": {"ch", "chan int"},
 	"int0": {"n0", "int"}, "map1": {"m1", "map[int]int"},
+	"intc": {"3", "int64"}, // an untyped constant operand with an int64 iteration variable (`=` form only)
 	"iter": {"it", "Iter[int]"}, // the local iterator it := D2(r, 3, b): a generator ranging over an iterator
 }
 
@@ -58,7 +59,8 @@ const rangeProlog = `	s := append(make([]int, 0, 4), 10, 20, 30)
 	ch <- 10
 	ch <- 20
 	close(ch)
-	kk, vv, rv := -1, -1, rune(-1)
+	kk, vv, rv, kk64 := -1, -1, rune(-1), int64(-1)
+	_ = kk64
 	w := [8]int{}
 	n0, m1 := 0, map[int]int{7: 70}
 	_, _, _, _, _, _, _, _, _, _, _ = s, arr, str, n, ch, kk, vv, rv, w, n0, m1
@@ -122,6 +124,10 @@ func (sr *srcRenderer) rangeStmt(m J, ind string) string {
 	}
 	if kind == "iter" && m["kf"] == "def" {
 		inject = in2 + "_ = k\n"
+	}
+	if kind == "intc" {
+		hdr = strings.Replace(hdr, "for kk = range", "for kk64 = range", 1)
+		inject = in2 + "kk = int(kk64)\n"
 	}
 	sr.kv = append(sr.kv, [2]string{kr, vr})
 	body := inject + sr.block(m["body"], in2)
